@@ -141,11 +141,12 @@ Theorem C04_parse_sound : forall e, denv_ok e -> forall ts m rest,
 Proof. exact parse_sound. Qed.
 Print Assumptions C04_parse_sound.
 
-(* consequences: script_size of the result is the length of the accepted script; decoding is
+(* consequences: script_size of the result, computed in the decoder's own context (any of the four;
+   Segwitv0 included since /repo 8a94baa9), is the length of the accepted script; decoding is
    injective on accepted scripts *)
 Theorem C04_decode_size : forall e b m,
   denv_ok e -> ksort_ok (d_ke e) -> is_bytes b ->
-  decode_max e b = OOk m -> script_size (cx e) (d_ke e) m = blen b.
+  decode_max e b = OOk m -> script_size (d_ctx e) (d_ke e) m = blen b.
 Proof. exact decode_size. Qed.
 Print Assumptions C04_decode_size.
 Theorem C04_decode_injective : forall e b1 b2 m,
